@@ -152,7 +152,7 @@ def dispatch_data():
     node = next((s for s in fn.body if isinstance(s, ast.If)), None)
     while node is not None:
         classes = _isinstance_classes(node.test)
-        chain.append((classes or ["?" + ast.unparse(node.test)], _arm_of_body(node.body) if classes else "unknown"))
+        chain.append((classes or ["?unrecognised-test"], _arm_of_body(node.body) if classes else "unknown"))
         if len(node.orelse) == 1 and isinstance(node.orelse[0], ast.If):
             node = node.orelse[0]
         else:
